@@ -9,6 +9,8 @@ from .constant_val import Symbol
 from typing import List, Optional, cast
 from ..util import code_indentation, vsprintf
 
+GO_WORDS: List[str] = ['loop', 'next', 'previous']
+
 LIST_FUNCTIONS: List[str] = ['findpos', 'findposnear', 'getaprop', 'getone',
                              'getpos', 'getpropat', 'getprop']
 
@@ -107,6 +109,13 @@ class CallFunction(Node):
                 rest.operands = params.operands[0:last]
                 return vsprintf("sound %s %s", modif.name,
                                       rest.generate_lingo(indentation))
+            
+            if ('go' == self.name and len(params.operands) == 1
+                and isinstance(params.operands[0], Symbol)
+                and params.operands[0].name in GO_WORDS):
+                # go loop / go next / go previous: the word is compiled as a
+                # symbol; everywhere else a symbol keeps its '#'
+                return vsprintf("go %s", params.operands[0].name)
             
             if self.use_parenthesis:
                 return self.name + '('+params.generate_lingo(indentation)+')'
